@@ -216,7 +216,9 @@ def run(out, explore=0):
     # and "bunched" definitions: a branch that begins with a nested fork, again with an event type shared by two
     # branches (the shape of the corpus' bunched_* cases combined with similar paths); frozen pool harness/pool/B.jsonl
     bpool = [_json.loads(l) for l in (_Path(__file__).resolve().parent / "pool" / "B.jsonl").read_text().splitlines() if l.strip()]
-    for rec in L.select(rpool, out.seed + 2, out.tier, 40) + L.select(bpool, out.seed + 3, out.tier, 60):
+    # and loop-rich definitions (a loop on another loop's break path, two loops after one event): frozen pool harness/pool/L.jsonl
+    lpool = [_json.loads(l) for l in (_Path(__file__).resolve().parent / "pool" / "L.jsonl").read_text().splitlines() if l.strip()]
+    for rec in L.select(rpool, out.seed + 2, out.tier, 40) + L.select(bpool, out.seed + 3, out.tier, 60) + L.select(lpool, out.seed + 4, out.tier, 40):
         jobs = L.complete_jobs(rec)
         recs.append(rec)
         for v in variants:
@@ -306,7 +308,7 @@ def run(out, explore=0):
                                                           layouts="F0 array file per job; F1 files listed shuffled + events shuffled inside; "
                                                                   "F2 one event per file with -group-by-job, job by job; F3 the same files interleaved"),
         "evaluations": len(items), "distinct_nontrivial": len({it["rec"]["id"] for it in items if it["rec"]["events"] >= 4}),
-        "rule": "pool slice + the 63 corpus definitions + 40 (thorough: 250) definitions of the frozen pool R (same event type in two branches of a fork) + 60 (thorough: 143) of the frozen pool B (a branch beginning with a nested fork, plus a shared event type) x presentation variants (job permutation, event permutation inside jobs, id renaming + time shift, a job "
+        "rule": "pool slice + the 63 corpus definitions + 40 (thorough: 250) definitions of the frozen pool R (same event type in two branches of a fork) + 60 (thorough: 143) of the frozen pool B (a branch beginning with a nested fork, plus a shared event type) + 40 (thorough: 300) of the frozen pool L (loops on break paths, two loops after one event) x presentation variants (job permutation, event permutation inside jobs, id renaming + time shift, a job "
                 "supplied twice, PYTHONHASHSEED in {0,1,12345,777,4242} in separate processes, distinct uuid streams); each variant "
                 "compared with variant 0 by two-way bounded language inclusion in coqc",
         "trusted_base": common.std_trusted_base(["validators as in C01/C02; presentation variants derived from (definition id, variant)"]),
